@@ -81,6 +81,9 @@ func (h accountsResourceHandler) ResolveFilter(opts common.ResourceQuery[any], o
 			if !h.store.ledger.HasFeature(features.FeatureMovesHistory, "ON") {
 				return "", nil, NewErrMissingFeature(features.FeatureMovesHistory)
 			}
+			if !h.store.ledger.HasFeature(features.FeatureMovesHistoryPostCommitEffectiveVolumes, "SYNC") {
+				return "", nil, NewErrMissingFeature(features.FeatureMovesHistoryPostCommitEffectiveVolumes)
+			}
 			selectBalance = selectBalance.
 				ModelTableExpr(h.store.GetPrefixedRelationName("moves")).
 				DistinctOn("asset").
@@ -127,6 +130,9 @@ func (h accountsResourceHandler) Expand(opts common.ResourceQuery[any], property
 	case "effectiveVolumes":
 		if !h.store.ledger.HasFeature(features.FeatureMovesHistoryPostCommitEffectiveVolumes, "SYNC") {
 			return nil, nil, common.NewErrInvalidQuery("feature %s must be 'SYNC' to use effectiveVolumes", features.FeatureMovesHistoryPostCommitEffectiveVolumes)
+		}
+		if opts.UsePIT() && !h.store.ledger.HasFeature(features.FeatureMovesHistory, "ON") {
+			return nil, nil, common.NewErrInvalidQuery("feature %s must be 'ON' to use effectiveVolumes at a point in time", features.FeatureMovesHistory)
 		}
 	}
 
